@@ -32,6 +32,9 @@ type Check struct {
 	Run    func(c *Ctx)
 	// Replay re-executes one recorded case without the explorer.
 	Replay func(c *Ctx, raw json.RawMessage)
+	// RacePass, when set, is the body of the separate free-running data race pass
+	// (executed in the -race build of the harness, see RunRacePass).
+	RacePass func(c *Ctx)
 	// Budget returns the internal deadline per tier.
 	Budget func(tier string) time.Duration
 }
@@ -356,6 +359,23 @@ func Main(checks map[string]*Check) {
 	if !ok {
 		fmt.Fprintf(os.Stderr, "unknown check %s\n", id)
 		os.Exit(2)
+	}
+
+	if len(os.Args) > 2 && os.Args[2] == "--racepass" {
+		if ch.RacePass == nil {
+			os.Exit(2)
+		}
+
+		tier := "quick"
+		if len(os.Args) > 3 {
+			tier = os.Args[3]
+		}
+
+		c := newCtx(ch, tier, 0, 1)
+		ch.RacePass(c)
+		fmt.Printf("RACEPASS-EXECUTIONS %d\n", c.res.Evaluations)
+
+		return
 	}
 
 	fs := flag.NewFlagSet("vh", flag.ExitOnError)
@@ -720,4 +740,98 @@ func replayMain(checks map[string]*Check) {
 	}
 
 	os.Exit(1)
+}
+
+// RunRacePass executes the check's RacePass in the -race build of the harness
+// (free running, real sync primitives, no cooperative scheduler: its hand-offs
+// would be happens-before edges that blind the detector). Every report of the
+// race detector is a violation.
+func RunRacePass(c *Ctx) {
+	bin := filepath.Join(VerifRoot, ".work", "bin", "vh-race")
+	if _, err := os.Stat(bin); err != nil {
+		c.Infra("race build of the harness is missing: %v", err)
+
+		return
+	}
+
+	cmd := exec.Command(bin, c.Check.ID, "--racepass", c.Tier)
+	cmd.Env = append(os.Environ(), "GORACE=halt_on_error=0 exitcode=0 history_size=3")
+
+	var stderr, stdout strings.Builder
+
+	cmd.Stderr = &stderr
+	cmd.Stdout = &stdout
+
+	err := cmd.Run()
+	out := stderr.String()
+
+	n := int64(0)
+	if i := strings.Index(stdout.String(), "RACEPASS-EXECUTIONS "); i >= 0 {
+		_, _ = fmt.Sscanf(stdout.String()[i:], "RACEPASS-EXECUTIONS %d", &n)
+	}
+
+	c.Count("race_pass_executions", n)
+
+	reports := strings.Split(out, "WARNING: DATA RACE")
+	if len(reports) > 1 {
+		seen := map[string]bool{}
+
+		for _, rep := range reports[1:] {
+			sig := "data-race/" + raceSite(rep)
+			if seen[sig] {
+				continue
+			}
+
+			seen[sig] = true
+
+			if len(rep) > 3000 {
+				rep = rep[:3000]
+			}
+
+			c.Violation(sig, "race detector report in the free-running pass: "+rep, map[string]any{"race_pass": true, "report": rep})
+		}
+
+		return
+	}
+
+	if err != nil || n == 0 {
+		tail := out
+		if len(tail) > 2000 {
+			tail = tail[len(tail)-2000:]
+		}
+
+		c.Violation("race-pass/crashed", fmt.Sprintf("free-running pass did not complete: %v: %s", err, tail),
+			map[string]any{"race_pass": true})
+	}
+}
+
+// raceSite extracts the first two heimdall functions named in a race report.
+func raceSite(rep string) string {
+	var sites []string
+
+	for _, line := range strings.Split(rep, "\n") {
+		line = strings.TrimSpace(line)
+		if strings.HasPrefix(line, "github.com/dadrus/heimdall/internal/") && !strings.Contains(line, "verifshim") {
+			fn := strings.TrimPrefix(line, "github.com/dadrus/heimdall/internal/")
+			if i := strings.IndexByte(fn, '('); i > 0 && !strings.HasPrefix(fn[i:], "(*") {
+				fn = fn[:i]
+			}
+
+			if i := strings.Index(fn, "()"); i > 0 {
+				fn = fn[:i]
+			}
+
+			sites = append(sites, fn)
+
+			if len(sites) == 2 {
+				break
+			}
+		}
+	}
+
+	if len(sites) == 0 {
+		return "unknown-site"
+	}
+
+	return strings.Join(sites, "+")
 }
